@@ -149,6 +149,10 @@ def check_aes(pid, tier, replay=None):
         rounds = 1 if tier == "quick" else 4
         sj = [("gcm", f, s * 31 + 7, 1400 * rounds, 3000) for f in whats["gcm"] for s in seeds]
         results += aescheck.sweep(drv, sj, env={"VERIF_GCM_SWEEP": "1"})
+        if tier != "quick":
+            # one update of more than 4 GiB after a carried partial block, every family and key size (OpenSSL oracle)
+            bj = [("gcm", f, chk.seed * 41 + 3, 20, 300) for f in whats["gcm"]]
+            results += aescheck.sweep(drv, bj, env={"VERIF_GCM_BIG": "1"})
     if pid == "C02":
         # one-shot counter-carry sweep: 331 block counts (200..530) so that the 8-bit counter shortcut wraps at every phase
         rounds = 1 if tier == "quick" else 4
@@ -435,9 +439,16 @@ def check_c12(pid, tier, replay=None):
                            capture_output=True, text=True).stdout.strip().split("\n")
     mismatch, compared = [], 0
     selected = {}
+    ud_hits = []
     for ci, (rl, ml) in enumerate(zip(real, model)):
         rd = dict(x.split("=") for x in rl.split())
         md = dict(x.split("=") for x in ml.split())
+        rud = set(x for x in rd.pop("#ud", "").split(",") if x)
+        mud = set(x for x in md.pop("#ud", "").split(",") if x)
+        if rud and len(ud_hits) < 5:
+            ud_hits.append({"cfg": cfgs[ci], "entries": sorted(rud)})
+        if rud != mud and len(mismatch) < 5:
+            mismatch.append({"cfg": cfgs[ci], "entry": sorted(rud ^ mud)[0], "real": ["xgetbv-ud:%s" % sorted(rud)], "model": "xgetbv-ud:%s" % sorted(mud)})
         for e in md:
             compared += 1
             names = addr2sym.get(int(rd.get(e, "0"), 16), ["?"]) if rd.get(e, "?") not in ("?stub",) else ["?stub"]
@@ -450,6 +461,14 @@ def check_c12(pid, tier, replay=None):
         chk.violation("translator/model disagrees with the real resolver for %s" % mismatch[0]["entry"],
                       {"kind": "config", "cfg": mismatch[0]["cfg"], "entry": mismatch[0]["entry"], "observed": mismatch[0]["real"],
                        "expected": mismatch[0]["model"]}, no_input=True, match={"entry": mismatch[0]["entry"], "monitor": "translator"})
+    chk.oblige("no real resolver executes XGETBV under a configuration with CPUID.1:ECX.OSXSAVE clear", not ud_hits, str(ud_hits[:2]))
+    for uh in ud_hits[:3]:
+        c = uh["cfg"]
+        chk.violation("resolver of %s executes XGETBV although OSXSAVE is clear (#UD)" % uh["entries"][0],
+                      {"kind": "config", "entry": uh["entries"][0], "entries": uh["entries"],
+                       "cfg": {"l1eax": c[0], "l1ecx": c[1], "l7ebx": c[2], "l7ecx": c[3], "xcr0": c[4]},
+                       "note": "hook build, virtual CPUID: the resolver called isal_verif_xgetbv while bit 27 of the virtual CPUID.1:ECX was 0"},
+                      match={"entry": uh["entries"][0], "monitor": "xgetbv-ud"})
     # property decision on failing obligations: concrete configuration whose selected target needs an unavailable class
     reported = set()
     for fp in failing:
